@@ -24,9 +24,11 @@ ACTIVE = [None, 1, 3, 5, 8]
 INACTIVE = [None, 1, 2, 3]
 
 
-def sessions(items, active, inactive, closing, include):
-    """The statement, transcribed.  items: (ts, flag, ...)"""
+def sessions(items, active, inactive, closing, include, self_closed=None):
+    """The statement, transcribed.  items: (ts, flag, ...).  self_closed (optional list) receives, per returned
+    window, whether it was closed by its own last item (an included closing item)."""
     windows = []
+    marks = {}
     cur = None
     ref = prev = None
     for it in items:
@@ -45,6 +47,7 @@ def sessions(items, active, inactive, closing, include):
         elif closing and it[1]:
             if include:
                 cur.append(it)
+                marks[id(cur)] = True
                 cur = []
                 windows.append(cur)
             else:
@@ -54,6 +57,8 @@ def sessions(items, active, inactive, closing, include):
         else:
             cur.append(it)
             prev = ts
+    if self_closed is not None:
+        self_closed.extend(bool(marks.get(id(w))) for w in windows if w)
     return [w for w in windows if w]
 
 
@@ -88,9 +93,24 @@ def run_case(case):
             if l.get('orphan') or not l['closed']:
                 raise Violation('window is not create..items..complete', window=l['items'], **ctx)
         got = [l['items'] for l in mine if l['items']]
-        exp = sessions(plt['items'], active, inactive, closing, include)
+        selfc = []
+        exp = sessions(plt['items'], active, inactive, closing, include, selfc)
         if not cmp.same_seq(got, exp, approx=False):
             raise Violation('windows differ from the sessions the statement defines', key_items=plt['items'], expected=exp, got=got, **ctx)
+        # when is a window closed?  by the item that opens the next one (timeouts / excluded closing item), by the
+        # closing item itself when it is included ("it closes the current window"), or by the completion of the key.
+        outer = list(plt['item_t']) + [plt['close_t']]
+        pos = 0
+        nonempty = [l for l in mine if l['items']]
+        for j, (l, w) in enumerate(zip(nonempty, exp)):
+            last = pos + len(w) - 1              # index (within the key) of the window's last item
+            closed_by_own_item = selfc[j]
+            k = last if closed_by_own_item else last + 1
+            if not (outer[k] < l['close_t'] and (k + 1 >= len(outer) or l['close_t'] < outer[k + 1])):
+                raise Violation('window %d was not closed while %s was being processed' % (
+                    j, 'its closing item' if closed_by_own_item else ('the completion of its key' if k == len(outer) - 1 else 'the item that opens the next window')),
+                    key_items=plt['items'], windows=exp, **ctx)
+            pos += len(w)
         nwin = max(nwin, len(exp))
         allw.append(exp)
     if claimed != len(wl):
